@@ -979,6 +979,9 @@ func (c *Compiler) linkRecursiveCode(ctx *compileContext) {
 
 		code := copyOpcode(codes.First())
 		code.Op = code.Op.PtrHeadToHead()
+		// a recursive reference always hands over the address of the struct, also for a
+		// struct that is stored directly in an interface word when it is the root value
+		code.Flags |= IndirectFlags
 		lastCode := newEndOp(&compileContext{}, recursive.Type)
 		lastCode.Op = OpRecursiveEnd
 
